@@ -196,8 +196,10 @@ Definition unquote (t : str) : option (eres * str) :=
 
 (* ---- patterns ------------------------------------------------------------------------------------
    Pattern._pretty, after pat = trim(pattern): *)
+Definition c_dot : N := 46.
 Definition pattern_pretty (p : str) : str :=
-  if has c_slash p then c_qm :: c_dq :: replace [c_dq] [c_bs; c_dq] p ++ [c_dq]
+  if str_eqb p [c_dot] then [c_qm; c_sq; c_dot; c_sq]       (* `/./` is the symbol of Dot: a lone dot prints as ?'.' *)
+  else if has c_slash p then c_qm :: c_dq :: replace [c_dq] [c_bs; c_dq] p ++ [c_dq]
   else c_slash :: p ++ [c_slash].
 
 (* REGEX (see the header): greedy; a slash can only be consumed behind a backslash, so the
